@@ -9,6 +9,11 @@ blocks with labels and their own content.  Modelled spec kinds: Object, Tuple, A
 BlockTuple, BlockMap, BlockObject, BlockAttrs, BlockLabel, Default.  Not modelled: BlockSet (no sets in the
 value model), ExprSpec, Transform*, Refine, Validate (application-supplied closures), optional object
 attributes, custom decoders, unknown bodies.  Only error *presence* is kept of the diagnostics.
+
+Panics of the code are `crash`es of the model, including those outside the documented preconditions: a
+BlockLabelSpec outside of a block, a dynamic type under BlockMap, BlockMap / BlockObject without label names meeting
+a block, and `cty.MapVal` receiving values of different types (BlockAttrs over a dynamic element type, BlockMap
+elements of different types).  Known deviation: BlockList over elements of different types (see there).
 -/
 namespace HclModel.Dec
 
@@ -118,16 +123,43 @@ def mtInsert : List String → Val → MTree → Option MTree
        | none => none)
   | _ :: _, _, .leaf _ => none
 
+/-- the element type `cty.MapVal` settles on: the type of the first value that is not of (exactly) the dynamic
+    pseudo-type; `dyn` when there is none -/
+def mapElemTy : List (String × Val) → Ty
+  | [] => .dyn
+  | (_, v) :: rest => if v.typeOf == .dyn then mapElemTy rest else v.typeOf
+
+/-- a value of exactly the dynamic pseudo-type (`cty.DynamicVal`, a null of that type) stored in a collection of
+    element type `t`: the collection keeps only its raw content -/
+def retype (t : Ty) : Val → Val
+  | .unk f .dyn => .unk f t
+  | .null f .dyn => .null f t
+  | v => v
+
+/-- `cty.MapVal`: the element type is the type of the values; values of the dynamic pseudo-type itself are exempt
+    from the consistency check.  `none` = panic ("inconsistent map element types", or "must not call MapVal with
+    empty map") -/
+def mapVal (kvs : List (String × Val)) : Option Val :=
+  let t := mapElemTy kvs
+  if kvs.isEmpty then none
+  else if kvs.all (fun kv => kv.2.typeOf == .dyn || kv.2.typeOf == t) then
+    some (.map Fl.none t (kvs.map fun kv => (kv.1, retype t kv.2)))
+  else none
+
 mutual
-/-- `ctyMap`: nested `cty.MapVal`s; the element type of each map is the type of its first element -/
-def mtVal : MTree → Val
-  | .leaf v => v
+/-- `ctyMap`: nested `cty.MapVal`s; `none` = `cty.MapVal` panics (the elements of some level differ in type) -/
+def mtVal : MTree → Option Val
+  | .leaf v => some v
   | .node kids =>
-    let vs := mtVals kids
-    .map Fl.none (match vs with | (_, v) :: _ => v.typeOf | [] => .dyn) vs
-def mtVals : List (String × MTree) → List (String × Val)
-  | [] => []
-  | (k, t) :: rest => (k, mtVal t) :: mtVals rest
+    match mtVals kids with
+    | some vs => mapVal vs
+    | none => none
+def mtVals : List (String × MTree) → Option (List (String × Val))
+  | [] => some []
+  | (k, t) :: rest =>
+    match mtVal t, mtVals rest with
+    | some v, some vs => some ((k, v) :: vs)
+    | _, _ => none
 end
 
 mutual
@@ -174,19 +206,23 @@ def decode : Spec → List DAttr → List DBlock → List String → DRes
     | some (elems, err) =>
       .ok (.tuple Fl.none elems) (err || elems.length < min || (max > 0 && elems.length > max))
   | .blockMap type n nested, _, blocks, _ =>
-    if n = 0 then .crash "BlockMapSpec without labels"
-    else if hasDyn (impliedType nested) then .crash "cty.DynamicPseudoType attributes may not be used inside a BlockMapSpec"
+    if hasDyn (impliedType nested) then .crash "cty.DynamicPseudoType attributes may not be used inside a BlockMapSpec"
+    -- without label names `childBlock.Labels[:len(s.LabelNames)-1]` panics: only when there is a block to look at
+    else if n = 0 ∧ !(blocksOf type blocks).isEmpty then .crash "BlockMapSpec without labels"
     else
       match decodeMap nested n (blocksOf type blocks) (.node []) false with
       | none => .crash "blockmap"
       | some (.node [], err) => .ok (.map Fl.none (impliedType nested) []) err     -- `cty.MapValEmpty(s.Nested.impliedType())`
-      | some (t, err) => .ok (mtVal t) err
+      | some (t, err) =>
+        match mtVal t with
+        | some v => .ok v err
+        | none => .crash "inconsistent map element types"
   | .blockObject type n nested, _, blocks, _ =>
-    if n = 0 then .crash "BlockObjectSpec without labels"
+    if n = 0 ∧ !(blocksOf type blocks).isEmpty then .crash "BlockObjectSpec without labels"
     else
       match decodeMap nested n (blocksOf type blocks) (.node []) false with
       | none => .crash "blockobject"
-      | some (t, err) => .ok (mtObj t) err
+      | some (t, err) => .ok (mtObj t) err             -- `cty.EmptyObjectVal` when there is no block
   | .blockAttrs type ety required, _, blocks, _ =>
     match blocksOf type blocks with
     | [] => .ok (.null Fl.none (.map ety)) required
@@ -196,7 +232,13 @@ def decode : Spec → List DAttr → List DBlock → List String → DRes
       | as =>
         let conv := as.map fun a => (a.name, match convert a.val ety with | .ok v => (v, a.evalErr) | .error _ => (Val.unk Fl.none ety, true))
         let kvs := conv.foldl (fun acc p => insertSorted p.1 p.2.1 acc) []
-        .ok (.map Fl.none ety kvs) (conv.any (·.2.2) || !more.isEmpty)
+        let err := conv.any (·.2.2) || !more.isEmpty
+        -- `cty.MapVal(vals)`: without a dynamic part in the element type every value has exactly that type
+        if hasDyn ety then
+          match mapVal kvs with
+          | some v => .ok v err
+          | none => .crash "inconsistent map element types"
+        else .ok (.map Fl.none ety kvs) err
   | .blockLabel i, _, _, labels =>
     match labels[i]? with
     | some l => .ok (.str Fl.none l) false
